@@ -376,6 +376,54 @@ def fromUtf16 (le acceptBom : Bool) (bs : Bytes) : List Char :=
   let (us, trailing) := unitsOfBytes le' body
   fromUtf16Units us ++ (if trailing then [repl] else [])
 
+
+/-! ## integer representation: gojqx.ToGoJQValueFn (internal/gojqx/totype.go:36-67), the rule that
+    decides whether a Go integer handed to jq (by Normalize before to_yaml/to_toml/…, by decoders)
+    is a Go `int` or a `*big.Int`.  gojq and the third-party encoders treat the two differently:
+    a *big.Int is marshalled by yaml.v3 / BurntSushi/toml as a quoted string. -/
+
+def minInt : Int := -(2 ^ 63)
+def maxInt : Int := 2 ^ 63 - 1
+
+/-- a Go integer with its static type -/
+inductive GoInt where
+  | int (v : Int)      -- int (64 bit)
+  | int64 (v : Int)
+  | uint64 (v : Int)
+  | big (v : Int)      -- *big.Int
+deriving Repr, DecidableEq
+
+def GoInt.val : GoInt → Int
+  | .int v => v | .int64 v => v | .uint64 v => v | .big v => v
+
+/-- the value lies in the range of its static type -/
+def GoInt.valid : GoInt → Bool
+  | .int v => decide (minInt ≤ v ∧ v ≤ maxInt)
+  | .int64 v => decide (minInt ≤ v ∧ v ≤ maxInt)
+  | .uint64 v => decide (0 ≤ v ∧ v ≤ 2 ^ 64 - 1)
+  | .big _ => true
+
+/-- what jq gets: an `int` or a `*big.Int` -/
+inductive JqInt where
+  | int (v : Int)
+  | big (v : Int)
+deriving Repr, DecidableEq
+
+/-- totype.go:44-66, branch for branch -/
+def toGoJQInt : GoInt → JqInt
+  | .int v => .int v
+  | .int64 v => if minInt ≤ v ∧ v ≤ maxInt then .int v else .big v
+  | .uint64 v => if v ≤ maxInt then .int v else .big v
+  | .big v =>
+    -- vv.IsInt64() && vv.Int64() >= math.MinInt && vv.Int64() <= math.MaxInt
+    if minInt ≤ v ∧ v ≤ maxInt then (if minInt ≤ v ∧ v ≤ maxInt then .int v else .big v) else .big v
+
+/-- REGRESSION MODEL (documentation): the demotion test `vv.BitLen() < bits.UintSize` (seeded change
+    S2-C14-2): |v| < 2^63, which leaves −2^63 a *big.Int -/
+def toGoJQIntBitLen : GoInt → JqInt
+  | .big v => if v.natAbs < 2 ^ 63 then .int v else .big v
+  | g => toGoJQInt g
+
 /-! ## radix (format/math/radix.jq), integers only -/
 
 def radixTable : List Char := "0123456789abcdefghijklmnopqrstuvwxyzABCDEFGHIJKLMNOPQRSTUVWXYZ@_".toList
